@@ -358,6 +358,11 @@ def trace_validate(module, pid, ndjson_path, cfg=None, overrides=False, shards=8
         for rej, r in ex.map(run, parts):
             rejects += rej
             states += r.distinct
+    if CURRENT_REPORT is not None:
+        # negative controls pick their "good" sample among the cases no trace spec rejected
+        for rj in rejects:
+            if isinstance(rj, dict) and "case" in rj:
+                CURRENT_REPORT.rejected_ids.add(rj["case"])
     return n, rejects, states
 
 
@@ -390,6 +395,7 @@ class Report:
                     "distinct_nontrivial": 0, "samples": [], "rule": "", "parts": {}}
         self.assumptions = []
         self.violations = []     # (key, description, replay dict)
+        self.rejected_ids = set()
         self.known = []
 
     def add_tlc(self, name, r):
